@@ -25,6 +25,11 @@ pub fn op_alphabet(f: Family, level: u8) -> Vec<Op> {
 	for s in core_segs(f, level) {
 		ops.push(Op::Push(s));
 	}
+	// arguments only (never initial states): spellings that merely DECODE to a dot segment
+	for s in ["%2E%2E", "%2e"] {
+		ops.push(Op::Push(domains::b(s)));
+		ops.push(Op::SymPush(domains::b(s)));
+	}
 	ops.push(Op::Pop);
 	ops.push(Op::Clear);
 	for s in core_segs(f, level) {
@@ -35,6 +40,10 @@ pub fn op_alphabet(f: Family, level: u8) -> Vec<Op> {
 		if !p.is_empty() {
 			ops.push(Op::SymAppend(p));
 		}
+	}
+	// three-segment arguments: an empty segment right after a dot segment, and an encoded ".."
+	for p in ["..//a", ".//a", "..//", "a//..", "%2E%2E/../a"] {
+		ops.push(Op::SymAppend(domains::b(p)));
 	}
 	ops.push(Op::Normalize);
 	ops
